@@ -1,39 +1,137 @@
 package main
 
 import (
+	"flag"
 	"fmt"
 	"os"
-	"go/types"
-
-	"golang.org/x/tools/go/packages"
-	"golang.org/x/tools/go/ssa"
-	"golang.org/x/tools/go/ssa/ssautil"
+	"runtime"
+	"sort"
+	"strings"
+	"time"
 )
 
+func usage() {
+	fmt.Fprintln(os.Stderr, `usage:
+  govc check --property <id> [--tier quick|thorough] [--repo /repo]
+  govc func  <name> [--keep] [--timeout s]      verify one function's contract (debugging)
+  govc dump  <name>                             print naive-form SSA
+  govc list                                     list contracts`)
+	os.Exit(2)
+}
+
 func main() {
-	cfg := &packages.Config{Mode: packages.LoadAllSyntax, Dir: "/repo", BuildFlags: []string{"-tags=verif"}}
-	pkgs, err := packages.Load(cfg, "./src", "./cli")
-	if err != nil {
-		panic(err)
+	if len(os.Args) < 2 {
+		usage()
 	}
-	prog, spkgs := ssautil.AllPackages(pkgs, ssa.NaiveForm)
-	prog.Build()
-	for _, p := range spkgs {
-		for _, m := range p.Members {
-			if f, ok := m.(*ssa.Function); ok && len(os.Args) > 1 && f.Name() == os.Args[1] {
-				f.WriteTo(os.Stdout)
+	cmd := os.Args[1]
+	fs := flag.NewFlagSet(cmd, flag.ExitOnError)
+	repo := fs.String("repo", "/repo", "repository root")
+	prop := fs.String("property", "", "property id")
+	tier := fs.String("tier", envOr("VERIF_TIER", "quick"), "quick|thorough")
+	keep := fs.Bool("keep", false, "keep all query files")
+	timeout := fs.Int("timeout", 0, "solver timeout (s)")
+	verbose := fs.Bool("v", false, "verbose")
+	var pos []string
+	args := os.Args[2:]
+	for len(args) > 0 && !strings.HasPrefix(args[0], "-") {
+		pos = append(pos, args[0])
+		args = args[1:]
+	}
+	fs.Parse(args)
+	pos = append(pos, fs.Args()...)
+
+	t0 := time.Now()
+	m, err := loadModel(*repo)
+	if err != nil {
+		fmt.Fprintln(os.Stderr, "load:", err)
+		os.Exit(3)
+	}
+	m.computeAllEffects()
+	if *verbose {
+		fmt.Fprintf(os.Stderr, "loaded in %v\n", time.Since(t0))
+	}
+	switch cmd {
+	case "dump":
+		for _, n := range pos {
+			f := m.funcs[n]
+			if f == nil {
+				fmt.Println("no function", n)
+				continue
 			}
+			f.WriteTo(os.Stdout)
 		}
-		if len(os.Args) > 2 {
-			t := p.Type(os.Args[1])
-			if t != nil {
-				f := prog.LookupMethod(types.NewPointer(t.Type()), p.Pkg, os.Args[2])
-				if f != nil {
-					f.WriteTo(os.Stdout)
-					for _, an := range f.AnonFuncs { an.WriteTo(os.Stdout) }
+	case "list":
+		for _, n := range m.spec.Order {
+			c := m.spec.Contracts[n]
+			fmt.Printf("%-40s %v req=%d ens=%d inv=%d\n", n, c.Props, len(c.Requires), len(c.Ensures), len(c.Invs))
+		}
+		names := sortedKeys(m.funcs)
+		fmt.Println(len(names), "functions")
+	case "funcs":
+		for _, n := range sortedKeys(m.funcs) {
+			fmt.Println(n)
+		}
+	case "func":
+		tmo := 10
+		if *timeout > 0 {
+			tmo = *timeout
+		}
+		bad := 0
+		for _, n := range pos {
+			ct := m.spec.Contracts[n]
+			if ct == nil {
+				ct = &Contract{Func: n, Opts: map[string]string{}}
+			}
+			e, err := m.verifyFunc(n, ct)
+			if err != nil {
+				fmt.Println("error:", err)
+				os.Exit(3)
+			}
+			dir, _ := os.MkdirTemp("", "govc")
+			e.solveAll(e.obls, solveOpts{timeoutS: tmo, seed: 1, workers: runtime.NumCPU(), dir: dir, keep: *keep})
+			sort.SliceStable(e.obls, func(i, j int) bool { return e.obls[i].Name < e.obls[j].Name })
+			for _, o := range e.obls {
+				ok := o.Status == "unsat"
+				if o.Smoke {
+					ok = o.Status != "unsat"
+				}
+				mark := "ok  "
+				if !ok {
+					mark = "FAIL"
+					bad++
+				}
+				if !ok || *verbose {
+					fmt.Printf("%s %-70s %-8s %5dms %s %v\n", mark, o.Name, o.Status, o.Ms, o.Solver, o.Props)
+					if !ok {
+						fmt.Printf("       %s\n       query: %s\n", o.Src, o.Query)
+					}
 				}
 			}
+			fmt.Printf("%s: %d obligations, %d failed; unsupported: %v\n", n, len(e.obls), bad, e.unsupported)
+			if len(e.notes) > 0 {
+				fmt.Println(" notes:", e.notes)
+			}
+			fmt.Println(" inlined:", sortedKeys(e.inlined), "\n contracts used:", sortedKeys(e.assumedCallees), "\n havocked:", sortedKeys(e.havocked))
+			if !*keep && bad == 0 {
+				os.RemoveAll(dir)
+			} else {
+				fmt.Println(" query dir:", dir)
+			}
 		}
+		if bad > 0 {
+			os.Exit(1)
+		}
+	case "check":
+		os.Exit(m.runCheck(*prop, *tier, *keep, *timeout))
+	default:
+		usage()
 	}
-	fmt.Println("ok")
 }
+
+func envOr(k, d string) string {
+	if v := os.Getenv(k); v != "" {
+		return v
+	}
+	return d
+}
+
